@@ -37,12 +37,74 @@ def check(ctx):
 
 
 class Info(object):
-    results = None      # name of the list the results are appended to
+    results = None      # name (in check) of the list of collected results
     outer = None
     inner = None
+    host = None         # FuncInfo of the function containing the check_response call
+    call = None
+    comp = None
+    comp_vars = None
+    best_name = None
 
 
 # ----------------------------------------------------------------------------- D1
+FRESH_NARROWED = ["dict(_A, expect=_E)", "{**_A, 'expect': _E}", "merge_dicts(_A, {'expect': _E})", "dict(_A, **{'expect': _E})"]
+
+
+def _self_calls(fn_node, selfname, name, own=True):
+    return [c for c in lib.calls_named(fn_node, name, own) if isinstance(c.func, ast.Attribute) and fl.name_of(c.func.value) == selfname]
+
+
+def _locate_host(idx, fi):
+    """The function that contains the self.check_response(...) call: check itself or ONE newly extracted helper (method,
+    function or nested def) that check calls with its answers / student input.  -> (host FuncInfo, answers param,
+    input param, name bound to the collected results in check or None)."""
+    p_self, p_answers, p_input = fi.params[0], fi.params[1], fi.params[2]
+    if _self_calls(fi.node, p_self, 'check_response'):
+        return fi, p_answers, p_input, None
+    cands = []
+    for q in list(idx.unreviewed) + [f.qualname for f in idx.funcs.values() if f.outer is fi]:
+        if not idx.has_func(q):
+            continue
+        h = idx.func(q)
+        hself = h.params[0] if h.cls is not None and not h.is_static and h.params else p_self
+        if _self_calls(h.node, hself, 'check_response') and h not in cands:
+            cands.append(h)
+    if len(cands) != 1:
+        raise AnalysisError('ItemGrader.check: expected one self.check_response call, found %d in check and %d in new helpers'
+                            % (0, len(cands)))
+    h = cands[0]
+    sites = [c for c in walk_own(fi.node) if isinstance(c, ast.Call) and nf.callee_name(c) == h.name]
+    if len(sites) != 1:
+        raise AnalysisError('ItemGrader.check: helper %s is called %d times' % (h.name, len(sites)))
+    site = sites[0]
+    params = [p for p in h.params]
+    if h.cls is not None and not h.is_static and isinstance(site.func, ast.Attribute):
+        params = params[1:]
+    mapping = dict(zip(params, site.args))
+    for k in site.keywords:
+        if k.arg:
+            mapping[k.arg] = k.value
+    alias = {p_answers}
+    for n in walk_own(fi.node):
+        if isinstance(n, ast.Assign) and len(n.targets) == 1 and isinstance(n.targets[0], ast.Name) and isinstance(n.value, ast.Name) \
+                and (n.value.id in alias or n.targets[0].id in alias):
+            alias |= {n.value.id, n.targets[0].id}
+    pa = [p for p, a in mapping.items() if fl.name_of(a) in alias]
+    pi = [p for p, a in mapping.items() if fl.name_of(a) == p_input]
+    if len(pa) != 1:
+        raise AnalysisError('ItemGrader.check: helper %s does not receive the answers' % h.name)
+    hin = pi[0] if len(pi) == 1 else (p_input if h.outer is fi else None)
+    if hin is None:
+        raise AnalysisError('ItemGrader.check: helper %s does not receive the student input' % h.name)
+    st = enclosing_stmt(site)
+    bound = st.targets[0].id if isinstance(st, ast.Assign) and st.value is site and len(st.targets) == 1 \
+        and isinstance(st.targets[0], ast.Name) else None
+    if bound is None:
+        raise AnalysisError('ItemGrader.check: the result of helper %s is not bound to a name' % h.name)
+    return h, pa[0], hin, bound
+
+
 def d1_loops(ctx, idx):
     r = ctx.rule('D1.LOOPFULL', 'every alternative and every entry of its expect tuple is checked, one result each', floor=7)
     info = Info()
@@ -53,90 +115,110 @@ def d1_loops(ctx, idx):
         for ci in idx.family(ITEM):
             if ci.qualname != ITEM and 'check' in ci.methods:
                 r.undecided(ci.qualname + '.check', 'unreviewed override of ItemGrader.check', ci.methods['check'].loc)
-        p_answers, p_input = fi.params[1], fi.params[2]
-        calls = lib.calls_named(fi.node, 'check_response')
-        calls = [c for c in calls if isinstance(c.func, ast.Attribute) and fl.name_of(c.func.value) == fi.params[0]]
+        hfi, p_answers, p_input, bound = _locate_host(idx, fi)
+        info.host = hfi
+        hself = hfi.params[0] if hfi.cls is not None and not hfi.is_static and hfi.params else fi.params[0]
+        calls = _self_calls(hfi.node, hself, 'check_response')
         if len(calls) != 1:
             raise AnalysisError('ItemGrader.check: expected one self.check_response call, found %d' % len(calls))
         call = calls[0]
-        loops = [a for a in ancestors(call) if isinstance(a, (ast.For, ast.While))]
-        loops = list(reversed(loops))       # outermost first
-        where = lib.loc(fi, call)
+        info.call = call
+        where = lib.loc(hfi, call)
+        # the default: answers = config['answers'] if answers is None else answers  (in check itself; through aliases)
+        ca = fi.params[1]
+        alias = {ca}
+        changed = True
+        while changed:
+            changed = False
+            for n in walk_own(fi.node):
+                if isinstance(n, ast.Assign) and len(n.targets) == 1 and isinstance(n.targets[0], ast.Name) and isinstance(n.value, ast.Name):
+                    a_, b_ = n.targets[0].id, n.value.id
+                    if (a_ in alias) != (b_ in alias):
+                        alias |= {a_, b_}
+                        changed = True
+        found_default = None
+        for n in walk_own(fi.node):
+            if isinstance(n, ast.Assign) and len(n.targets) == 1 and fl.name_of(n.targets[0]) in alias:
+                for x in alias:
+                    for y in alias:
+                        if nf.match("self.config['answers'] if %s is None else %s" % (x, y), n.value) is not None or \
+                                nf.match("%s if %s is not None else self.config['answers']" % (y, x), n.value) is not None:
+                            found_default = n
+            if isinstance(n, ast.If) and not n.orelse and len(n.body) == 1 and isinstance(n.body[0], ast.Assign) \
+                    and fl.name_of(n.body[0].targets[0]) in alias and lib.is_config(n.body[0].value, 'answers') \
+                    and any(nf.match('%s is None' % x, n.test) is not None for x in alias):
+                found_default = n
+        if found_default is not None:
+            r.ok(C + ': answers default', "config['answers'] when no answers are passed", lib.loc(fi, found_default))
+        else:
+            r.undecided(C + ': answers default', 'default for answers=None not recognised', fi.loc)
+        comp = [a for a in ancestors(call) if isinstance(a, (ast.ListComp, ast.GeneratorExp))]
+        loops = list(reversed([a for a in ancestors(call) if isinstance(a, (ast.For, ast.While))]))       # outermost first
+        if comp and not loops:
+            _d1_comprehension(r, idx, fi, hfi, C, comp[-1], call, p_answers, p_input, info, bound)
+            return info
         if not loops:
-            r.violation(C + ': loop over answers', 'check_response is no longer called in a loop over the alternatives: only one '
-                        'alternative is ever compared', where)
+            fl.absent(r, idx, C + ': loop over answers', 'check_response is no longer called in a loop over the alternatives: only one '
+                      'alternative is ever compared', where)
             return info
         outer = loops[0]
         info.outer = outer
         # ---- outer loop
         if not (isinstance(outer, ast.For) and isinstance(outer.target, ast.Name)):
-            r.undecided(C + ': loop over answers', 'loop header not recognised', lib.loc(fi, outer))
+            r.undecided(C + ': loop over answers', 'loop header not recognised', lib.loc(hfi, outer))
             return info
         av = outer.target.id
-        it = outer.iter
+        it, _ = fl.unwrap_seq(outer.iter)
         if isinstance(it, ast.Name) and it.id == p_answers:
-            r.ok(C + ': loop over answers', 'iterates over the complete answers tuple', lib.loc(fi, outer))
+            r.ok(C + ': loop over answers', 'iterates over the complete answers tuple', lib.loc(hfi, outer))
         elif isinstance(it, ast.Subscript) and fl.mentions(it.value, p_answers):
             r.violation(C + ': loop over answers', 'only part of the alternatives is examined (`%s`): a better-scoring alternative '
-                        'listed elsewhere is ignored, so the grade depends on the listing order' % short(it), lib.loc(fi, outer),
+                        'listed elsewhere is ignored, so the grade depends on the listing order' % short(it), lib.loc(hfi, outer),
                         expected='for answer in %s' % p_answers, found=unparse(it))
-        elif isinstance(it, ast.Call) and nf.callee_name(it) in ('reversed', 'sorted', 'list', 'tuple') and len(it.args) == 1 \
+        elif isinstance(it, ast.Call) and nf.callee_name(it) in ('reversed', 'sorted') and len(it.args) == 1 \
                 and fl.name_of(it.args[0]) == p_answers:
-            r.ok(C + ': loop over answers', 'iterates over all answers (%s)' % nf.callee_name(it), lib.loc(fi, outer))
+            r.ok(C + ': loop over answers', 'iterates over all answers (%s)' % nf.callee_name(it), lib.loc(hfi, outer))
         else:
-            r.undecided(C + ': loop over answers', 'iteration not recognised: %s' % short(it), lib.loc(fi, outer))
-        # the default: answers = config['answers'] if answers is None else answers
-        defs = [v for v in lib.assigned_value(fi.node, p_answers)]
-        if len(defs) == 1:
-            res = nf.classify(["self.config['answers'] if %s is None else %s" % (p_answers, p_answers),
-                               "%s if %s is not None else self.config['answers']" % (p_answers, p_answers)], defs[0])
-            if res == nf.MATCH:
-                r.ok(C + ': answers default', "config['answers'] when no answers are passed", lib.loc(fi, defs[0]))
-            else:
-                r.undecided(C + ': answers default', 'not recognised: %s' % short(defs[0]), lib.loc(fi, defs[0]))
-        elif defs:
-            r.undecided(C + ': answers default', 'answers is rebound %d times' % len(defs), fi.loc)
+            r.undecided(C + ': loop over answers', 'iteration not recognised: %s' % short(it), lib.loc(hfi, outer))
         # ---- inner loop over the expect tuple
         if len(loops) >= 2:
             inner = loops[1]
             info.inner = inner
             if not (isinstance(inner, ast.For) and isinstance(inner.target, ast.Name)):
-                r.undecided(C + ': loop over expect entries', 'loop header not recognised', lib.loc(fi, inner))
+                r.undecided(C + ': loop over expect entries', 'loop header not recognised', lib.loc(hfi, inner))
             else:
-                it2 = inner.iter
+                it2, _ = fl.unwrap_seq(inner.iter)
                 if nf.match("%s['expect']" % av, it2) is not None:
-                    r.ok(C + ': loop over expect entries', "iterates over the complete answer['expect'] tuple", lib.loc(fi, inner))
+                    r.ok(C + ': loop over expect entries', "iterates over the complete answer['expect'] tuple", lib.loc(hfi, inner))
                 elif isinstance(it2, ast.Subscript) and nf.match("%s['expect']" % av, it2.value) is not None:
                     r.violation(C + ': loop over expect entries', 'only part of the expect tuple is examined (`%s`): an input matching '
-                                'another entry of the tuple is graded wrong' % short(it2), lib.loc(fi, inner),
+                                'another entry of the tuple is graded wrong' % short(it2), lib.loc(hfi, inner),
                                 expected="for entry in %s['expect']" % av, found=unparse(it2))
                 else:
-                    r.undecided(C + ': loop over expect entries', 'iteration not recognised: %s' % short(it2), lib.loc(fi, inner))
+                    r.undecided(C + ': loop over expect entries', 'iteration not recognised: %s' % short(it2), lib.loc(hfi, inner))
         else:
             picks = [n for n in ast.walk(outer) if isinstance(n, ast.Subscript) and isinstance(n.ctx, ast.Load)
                      and nf.match("%s['expect']" % av, n.value) is not None and isinstance(n.slice, ast.Constant)]
             if picks:
                 r.violation(C + ': loop over expect entries', 'only entry `%s` of the expect tuple is checked: the other accepted values '
-                            'of the alternative are never compared' % short(picks[0]), lib.loc(fi, picks[0]),
+                            'of the alternative are never compared' % short(picks[0]), lib.loc(hfi, picks[0]),
                             expected="for entry in %s['expect']" % av)
             else:
-                r.undecided(C + ': loop over expect entries', 'no nested loop over the expect tuple found', lib.loc(fi, outer))
+                r.undecided(C + ': loop over expect entries', 'no nested loop over the expect tuple found', lib.loc(hfi, outer))
         # ---- no early exit
         for lp, what in ((outer, 'loop over answers'), (info.inner, 'loop over expect entries')):
             if lp is None:
                 continue
             exits = [e for e in lib.loop_has_early_exit(lp) if not isinstance(e, ast.Raise)]
             if lp is outer and info.inner is not None:
-                # exits of the inner loop are reported with the inner loop; return anywhere counts for both
                 inner_ids = {id(n) for n in ast.walk(info.inner)}
-                exits = [e for e in exits if id(e) not in inner_ids or isinstance(e, ast.Return)]
-                exits = [e for e in exits if not (isinstance(e, ast.Return) and id(e) in inner_ids)]
+                exits = [e for e in exits if id(e) not in inner_ids]
             if exits:
                 for e in exits:
                     r.violation(C + ': ' + what, '`%s` leaves or skips the loop: the remaining alternatives are not compared, so the '
-                                'first hit wins instead of the best one' % short(e), lib.loc(fi, e))
+                                'first hit wins instead of the best one' % short(e), lib.loc(hfi, e))
             else:
-                r.ok(C + ': ' + what + ' [exits]', 'no break/continue/return', lib.loc(fi, lp))
+                r.ok(C + ': ' + what + ' [exits]', 'no break/continue/return', lib.loc(hfi, lp))
         # ---- one result per (answer, entry), unconditionally
         st = enclosing_stmt(call)
         apps = [c for c in ast.walk(outer) if isinstance(c, ast.Call) and nf.callee_name(c) == 'append'
@@ -151,44 +233,123 @@ def d1_loops(ctx, idx):
                 prov_ok.append(a)
         if len(prov_ok) != 1:
             if not prov_ok:
-                r.violation(C + ': results', 'the result of check_response is no longer appended to the list of results', where)
+                fl.absent(r, idx, C + ': results', 'the result of check_response is no longer appended to the list of results', where)
                 return info
             raise AnalysisError('ItemGrader.check: several appends of the check_response result')
         app = prov_ok[0]
-        info.results = app.func.value.id
+        acc = app.func.value.id
         innermost = loops[-1]
         same_body = any(s is enclosing_stmt(app) for s in innermost.body) and any(s is st for s in innermost.body)
-        conds = [a for a, br in fl.if_chain_containing(app, fi.node) if any(a is x for x in ast.walk(outer))]
+        conds = [a for a, br in fl.if_chain_containing(app, hfi.node) if any(a is x for x in ast.walk(outer))]
         if conds:
             r.violation(C + ': results', 'a result is only recorded under `%s`: the other alternatives drop out of the comparison '
-                        '(and max() of an empty list raises when nothing qualifies)' % short(conds[0].test), lib.loc(fi, app))
-        elif same_body and lib.dominated(fi, [call], [app]):
-            r.ok(C + ': results', 'one result appended per (answer, entry)', lib.loc(fi, app))
+                        '(and max() of an empty list raises when nothing qualifies)' % short(conds[0].test), lib.loc(hfi, app))
+        elif same_body and lib.dominated(hfi, [call], [app]):
+            r.ok(C + ': results', 'one result appended per (answer, entry)', lib.loc(hfi, app))
         else:
-            r.undecided(C + ': results', 'append not directly in the innermost loop body', lib.loc(fi, app))
-        inits = lib.assigned_value(fi.node, info.results)
-        in_loop = [v for v in inits if fl.enclosing_loop(v, fi.node) is not None]
+            r.undecided(C + ': results', 'append not directly in the innermost loop body', lib.loc(hfi, app))
+        inits = lib.assigned_value(hfi.node, acc)
+        in_loop = [v for v in inits if fl.enclosing_loop(v, hfi.node) is not None]
         if len(inits) == 1 and isinstance(inits[0], ast.List) and not inits[0].elts and not in_loop:
-            r.ok(C + ': results list', 'starts empty before the loops', lib.loc(fi, inits[0]))
+            r.ok(C + ': results list', 'starts empty before the loops', lib.loc(hfi, inits[0]))
         elif in_loop and all(isinstance(v, ast.List) for v in in_loop):
             r.violation(C + ': results list', 'the list of results is re-created inside the loop (`%s = %s`): only the results of the '
-                        'last alternative survive' % (info.results, unparse(in_loop[0])), lib.loc(fi, in_loop[0]))
+                        'last alternative survive' % (acc, unparse(in_loop[0])), lib.loc(hfi, in_loop[0]))
         else:
-            r.undecided(C + ': results list', 'initialisation not recognised', fi.loc)
-        # the call hands over the student's input
-        a1 = call.args[1] if len(call.args) > 1 else None
-        if not (isinstance(a1, ast.Name) and a1.id == p_input):
-            r.undecided(C + ': check_response(...)', 'second argument is not the student input parameter', where)
+            r.undecided(C + ': results list', 'initialisation not recognised', hfi.loc)
+        if hfi is fi:
+            info.results = acc
+        else:
+            rets = lib.returns_of(hfi.node)
+            if len(rets) == 1 and fl.name_of(rets[0].value) == acc:
+                info.results = bound
+            else:
+                r.undecided(C + ': results', 'helper %s does not return the collected list' % hfi.name, hfi.loc)
+        _d1_call_args(r, C, hfi, call, p_input, where)
     return info
 
 
+def _d1_call_args(r, C, hfi, call, p_input, where):
+    a1 = call.args[1] if len(call.args) > 1 else None
+    if not (isinstance(a1, ast.Name) and a1.id == p_input):
+        r.undecided(C + ': check_response(...)', 'second argument is not the student input parameter', where)
+    kw = hfi.node.args.kwarg.arg if hfi.node.args.kwarg else None
+    fwd = [k for k in call.keywords if k.arg is None]
+    if kw and not (len(fwd) == 1 and fl.name_of(fwd[0].value) == kw):
+        r.undecided(C + ': check_response(...)', '**%s is not forwarded' % kw, where)
+
+
+def _d1_comprehension(r, idx, fi, hfi, C, comp, call, p_answers, p_input, info, bound):
+    """`[self.check_response(<fresh narrowed copy>, input, **kw) for answer in answers for entry in answer['expect']]`"""
+    where = lib.loc(hfi, comp)
+    gens = comp.generators
+    if len(gens) != 2 or not all(isinstance(g.target, ast.Name) for g in gens):
+        r.undecided(C + ': loop over answers', 'comprehension with %d generators not recognised' % len(gens), where)
+        return
+    g0, g1 = gens
+    av, ev_ = g0.target.id, g1.target.id
+    it, _ = fl.unwrap_seq(g0.iter)
+    if fl.name_of(it) == p_answers:
+        r.ok(C + ': loop over answers', 'iterates over the complete answers tuple', where)
+    elif isinstance(it, ast.Subscript) and fl.mentions(it.value, p_answers):
+        r.violation(C + ': loop over answers', 'only part of the alternatives is examined (`%s`)' % short(it), where)
+    else:
+        r.undecided(C + ': loop over answers', 'iteration not recognised: %s' % short(it), where)
+    it2, _ = fl.unwrap_seq(g1.iter)
+    if nf.match("%s['expect']" % av, it2) is not None:
+        r.ok(C + ': loop over expect entries', "iterates over the complete answer['expect'] tuple", where)
+    elif isinstance(it2, ast.Subscript) and nf.match("%s['expect']" % av, it2.value) is not None:
+        r.violation(C + ': loop over expect entries', 'only part of the expect tuple is examined (`%s`)' % short(it2), where)
+    else:
+        r.undecided(C + ': loop over expect entries', 'iteration not recognised: %s' % short(it2), where)
+    for g, what in ((g0, 'loop over answers'), (g1, 'loop over expect entries')):
+        if g.ifs:
+            r.violation(C + ': ' + what, 'the comprehension skips elements under `%s`: those alternatives are not compared'
+                        % short(g.ifs[0]), where)
+        else:
+            r.ok(C + ': ' + what + ' [exits]', 'a comprehension visits every element', where)
+    if comp.elt is call:
+        r.ok(C + ': results', 'one result per (answer, entry)', where)
+    else:
+        r.undecided(C + ': results', 'the comprehension does not yield the check_response result directly', where)
+    st = enclosing_stmt(comp)
+    name = st.targets[0].id if isinstance(st, ast.Assign) and len(st.targets) == 1 and isinstance(st.targets[0], ast.Name) else None
+    if isinstance(comp, ast.ListComp) and name and st.value is comp and fl.enclosing_loop(st, hfi.node) is None:
+        r.ok(C + ': results list', 'bound once to the comprehension', where)
+        if hfi is fi:
+            info.results = name
+        else:
+            rets = lib.returns_of(hfi.node)
+            if len(rets) == 1 and fl.name_of(rets[0].value) == name:
+                info.results = bound
+    elif isinstance(comp, ast.ListComp) and hfi is not fi and isinstance(st, ast.Return) and st.value is comp:
+        r.ok(C + ': results list', 'returned by the helper', where)
+        info.results = bound
+    else:
+        r.undecided(C + ': results list', 'the comprehension is not bound to a plain name', where)
+    info.comp = comp
+    info.comp_vars = (av, ev_)
+    _d1_call_args(r, C, hfi, call, p_input, where)
+
+
 # ----------------------------------------------------------------------------- D2
-def _lambda_len_msg(key):
-    """+1 for `lambda r: len(r['msg'])`, -1 for `lambda r: -len(r['msg'])`, None otherwise."""
-    if not (isinstance(key, ast.Lambda) and len(key.args.args) == 1 and not key.args.defaults):
+def _follow(expr, env, limit=8):
+    """Follow plain-name temporaries: x -> env[x] -> ..."""
+    seen = []
+    while isinstance(expr, ast.Name) and expr.id in env and limit > 0:
+        seen.append(expr.id)
+        expr = env[expr.id]
+        limit -= 1
+    return expr, seen
+
+
+def _key_sign(key, fi, idx):
+    """+1 if the key function is r -> len(r['msg']), -1 for r -> -len(r['msg']), None otherwise (lambda, nested def, method)."""
+    uf = fl.unary_function(key, fi.node, idx, fi)
+    if uf is None:
         return None
-    p = key.args.args[0].arg
-    body = nf.canon(key.body)
+    p, body = uf
+    body = nf.canon(body)
     if nf.match("len(%s['msg'])" % p, body) is not None:
         return 1
     if nf.match("-len(%s['msg'])" % p, body) is not None:
@@ -204,34 +365,36 @@ def d2_selection(ctx, idx, info):
         if info.results is None:
             raise AnalysisError('results list not identified (see D1)')
         res_name = info.results
+        env = fl.flat_env(fi.node)
         rets = lib.returns_of(fi.node)
-        if len(rets) != 1 or not isinstance(rets[0].value, ast.Name):
-            raise AnalysisError('ItemGrader.check: expected a single `return <name>`')
+        if not rets or not all(isinstance(x.value, ast.Name) for x in rets) or len({x.value.id for x in rets}) != 1:
+            raise AnalysisError('ItemGrader.check: the returns do not all hand back one name')
         wname = rets[0].value.id
-        wdefs = lib.assigned_value(fi.node, wname)
-        if len(wdefs) != 1:
-            raise AnalysisError('ItemGrader.check: the returned name is bound %d times' % len(wdefs))
-        W = wdefs[0]
-        where = lib.loc(fi, W)
-        env = lib.local_env(fi.node)
+        W, aliases = _follow(rets[0].value, env)
+        if isinstance(W, ast.Name):
+            raise AnalysisError('ItemGrader.check: the returned name `%s` is not bound exactly once' % W.id)
+        info.winner_names = set(aliases)
+        where = lib.loc(fi, W) if hasattr(W, 'lineno') else fi.loc
         # ---- winner among the candidates
         cand = None
-        if isinstance(W, ast.Call) and nf.callee_name(W) in ('max', 'min') and isinstance(W.func, ast.Name) and len(W.args) == 1:
+        if isinstance(W, ast.Call) and isinstance(W.func, ast.Name) and W.func.id in ('max', 'min') and len(W.args) == 1:
             key = lib.get_kw(W, 'key')
-            sign = _lambda_len_msg(key) if key is not None else None
             cand = W.args[0]
             if key is None:
                 r.violation(C + ': winner', 'ties are broken by comparing the result dicts themselves (no key): not by message length',
                             where, expected="max(candidates, key=lambda r: len(r['msg']))", found=unparse(W))
-            elif sign is None:
-                r.undecided(C + ': winner', 'key function not recognised: %s' % short(key), where)
             else:
-                longest = (W.func.id == 'max') == (sign > 0)
-                r.check(longest, C + ': winner', 'the candidate with the longest message',
-                        'among the best-scoring results the one with the SHORTEST message is reported (`%s`): a specific feedback message '
-                        'loses against an empty one' % short(W), where, expected="max(candidates, key=lambda r: len(r['msg']))",
-                        found=unparse(W))
-        elif isinstance(W, ast.Subscript) and isinstance(W.slice, (ast.Constant, ast.UnaryOp)):
+                sign = _key_sign(key, fi, idx)
+                if sign is None:
+                    r.undecided(C + ': winner', 'key function not recognised: %s' % short(key), where)
+                else:
+                    longest = (W.func.id == 'max') == (sign > 0)
+                    r.check(longest, C + ': winner', 'the candidate with the longest message',
+                            'among the best-scoring results the one with the SHORTEST message is reported (`%s`): a specific feedback '
+                            'message loses against an empty one' % short(W), where,
+                            expected="max(candidates, key=lambda r: len(r['msg']))", found=unparse(W))
+        elif isinstance(W, ast.Subscript) and isinstance(W.slice, (ast.Constant, ast.UnaryOp)) and \
+                isinstance(nf.const_value(W.slice, None), int):
             cand = W.value
             r.violation(C + ': winner', 'among the best-scoring results the one at position %s is reported, not the one with the longest '
                         'message: the feedback depends on the listing order' % unparse(W.slice), where,
@@ -241,8 +404,11 @@ def d2_selection(ctx, idx, info):
         if cand is None:
             return
         # ---- candidates = results with the best score
-        cexpr = nf.subst(cand, env) if isinstance(cand, ast.Name) else cand
-        if isinstance(cand, ast.Name) and cand.id == res_name:
+        env_x = {k: v for k, v in env.items() if k != res_name}
+        cexpr = cand
+        while isinstance(cexpr, ast.Name) and cexpr.id != res_name and cexpr.id in env:
+            cexpr = env[cexpr.id]
+        if isinstance(cexpr, ast.Name) and cexpr.id == res_name:
             r.violation(C + ': candidates', 'the winner is chosen among ALL results by message length: a lower-scoring alternative with a '
                         'longer message beats the best-scoring one', where, expected="[r for r in results if r['grade_decimal'] == best]")
             return
@@ -253,9 +419,10 @@ def d2_selection(ctx, idx, info):
             return
         g = cexpr.generators[0]
         rv = g.target.id
-        if not (isinstance(g.iter, ast.Name) and g.iter.id == res_name and isinstance(cexpr.elt, ast.Name) and cexpr.elt.id == rv):
-            if isinstance(g.iter, ast.Subscript) and fl.mentions(g.iter, res_name):
-                r.violation(C + ': candidates', 'only part of the results takes part in the selection (`%s`)' % short(g.iter), cw)
+        seq, _ = fl.unwrap_seq(g.iter)
+        if not (fl.name_of(seq) == res_name and isinstance(cexpr.elt, ast.Name) and cexpr.elt.id == rv):
+            if isinstance(seq, ast.Subscript) and fl.mentions(seq, res_name):
+                r.violation(C + ': candidates', 'only part of the results takes part in the selection (`%s`)' % short(seq), cw)
             else:
                 r.undecided(C + ': candidates', 'comprehension not recognised: %s' % short(cexpr), cw)
             return
@@ -277,7 +444,6 @@ def d2_selection(ctx, idx, info):
             if nf.match("%s['grade_decimal']" % rv, a) is not None:
                 best = b
                 op = flt.ops[0]
-                # canonical orientation: a op b with a = r['grade_decimal'] (flipped => b op a)
                 keeps_best = isinstance(op, ast.Eq) or (isinstance(op, ast.LtE) and flipped)       # best <= r.grade
                 if keeps_best:
                     r.ok(C + ': candidates', "results whose grade_decimal equals the best score", cw)
@@ -288,10 +454,14 @@ def d2_selection(ctx, idx, info):
             r.undecided(C + ': candidates', 'filter not recognised: %s' % short(g.ifs[0]), cw)
             return
         # ---- best score = max of grade_decimal over all results
-        info.best_name = best.id if isinstance(best, ast.Name) else None
-        bexpr = nf.subst(best, env) if isinstance(best, ast.Name) else best
+        bexpr, bnames = _follow(best, env)
+        if isinstance(best, ast.Name):
+            bnames = [best.id] + [n for n in bnames if n != best.id]
+        # every single-assignment local that resolves to the same expression names the best score too
+        info.best_names = set(bnames) | {k for k in env if _follow(ast.Name(id=k, ctx=ast.Load()), env)[0] is bexpr}
         bw = lib.loc(fi, bexpr) if hasattr(bexpr, 'lineno') else cw
         pats = ["max([_R['grade_decimal'] for _R in %s])" % res_name, "max(_R['grade_decimal'] for _R in %s)" % res_name]
+        bexpr = fl.expand(bexpr, env_x)
         res = nf.classify(pats, bexpr)
         if res == nf.MATCH:
             r.ok(C + ': best score', "max of grade_decimal over all results", bw)
@@ -306,109 +476,180 @@ def d2_selection(ctx, idx, info):
                             expected=pats[0])
             else:
                 r.undecided(C + ': best score', 'not recognised: %s' % short(bexpr), bw)
-        # selection happens after all results exist
-        if info.outer is not None:
-            cfg = cfg_of(fi.node)
-            inside = fl.enclosing_loop(W, fi.node) is not None
-            r.check(not inside and lib.dominated(fi, [info.outer.iter], [W]), C + ': selection order', 'after the loops',
+        # selection happens after all results exist (only meaningful when the results are collected in check itself)
+        wstmt = enclosing_stmt(W) if hasattr(W, '_parent') else None
+        inside = wstmt is not None and fl.enclosing_loop(wstmt, fi.node) is not None
+        anchor = None
+        if info.host is fi and info.outer is not None:
+            anchor = info.outer.iter
+        elif info.host is fi and info.comp is not None:
+            anchor = info.comp
+        else:
+            defs = [n for n in walk_own(fi.node) if isinstance(n, ast.Assign) and any(fl.name_of(t) == res_name for t in n.targets)]
+            anchor = defs[0].value if len(defs) == 1 else None
+        if anchor is None or wstmt is None:
+            r.undecided(C + ': selection order', 'cannot relate the selection to the collection of the results', where)
+        else:
+            r.check(not inside and lib.dominated(fi, [anchor], [wstmt]), C + ': selection order', 'after all results are collected',
                     'the selection runs inside the loop over the alternatives (on partial results)', where)
 
 
 # ----------------------------------------------------------------------------- D3
+class _Unknown(Exception):
+    pass
+
+
+def _grade_classes(exprs, is_score):
+    """Representatives of the order types of a grade in [0, 1] against every constant it is compared with in `exprs`."""
+    consts = {0, 1}
+    for t in exprs:
+        for n in ast.walk(t):
+            if isinstance(n, ast.Compare) and len(n.ops) == 1:
+                for a, b in ((n.left, n.comparators[0]), (n.comparators[0], n.left)):
+                    v = nf.const_value(b, None)
+                    if is_score(a) and isinstance(v, (int, float)) and not isinstance(v, bool):
+                        consts.add(v)
+    pts = sorted(c for c in consts if 0 <= c <= 1)
+    reps = []
+    for i, c in enumerate(pts):
+        reps.append(c)
+        if i + 1 < len(pts):
+            reps.append((c + pts[i + 1]) / 2.0)
+    return reps
+
+
+def _truth(e, empty, g, is_msg, is_score):
+    """Truth of a guard for the class (winner's message empty?, order-type representative g of the best grade)."""
+    import operator
+    OPS = {ast.Eq: operator.eq, ast.NotEq: operator.ne, ast.Lt: operator.lt, ast.LtE: operator.le, ast.Gt: operator.gt,
+           ast.GtE: operator.ge}
+
+    def val(x):
+        if is_msg(x):
+            return ('msg', empty)
+        if is_score(x):
+            return ('num', g)
+        if isinstance(x, ast.Call) and isinstance(x.func, ast.Name) and x.func.id == 'len' and len(x.args) == 1 and is_msg(x.args[0]):
+            return ('num', 0 if empty else 1)       # order type of the length against 0
+        if isinstance(x, ast.Constant) and isinstance(x.value, str):
+            return ('str', x.value)
+        if isinstance(x, ast.Constant) and isinstance(x.value, (int, float)) and not isinstance(x.value, bool):
+            return ('num', x.value)
+        raise _Unknown()
+    if isinstance(e, ast.Constant) and isinstance(e.value, bool):
+        return e.value
+    if isinstance(e, ast.BoolOp):
+        vals = [_truth(v, empty, g, is_msg, is_score) for v in e.values]
+        return all(vals) if isinstance(e.op, ast.And) else any(vals)
+    if isinstance(e, ast.UnaryOp) and isinstance(e.op, ast.Not):
+        return not _truth(e.operand, empty, g, is_msg, is_score)
+    if isinstance(e, ast.Compare) and len(e.ops) == 1 and type(e.ops[0]) in OPS:
+        a, b = val(e.left), val(e.comparators[0])
+        kinds = {a[0], b[0]}
+        if kinds == {'msg', 'str'}:
+            m, s_ = (a, b) if a[0] == 'msg' else (b, a)
+            if s_[1] != '' or not isinstance(e.ops[0], (ast.Eq, ast.NotEq)):
+                raise _Unknown()
+            return m[1] if isinstance(e.ops[0], ast.Eq) else not m[1]
+        if kinds == {'num'}:
+            return OPS[type(e.ops[0])](a[1], b[1])
+        raise _Unknown()
+    v = val(e)
+    if v[0] == 'msg':
+        return not v[1]
+    if v[0] == 'num':
+        return bool(v[1])
+    raise _Unknown()
+
+
 def d3_wrong_msg(ctx, idx, info):
     r = ctx.rule('D3.WRONGMSG', "wrong_msg replaces the message iff msg == '' and best score == 0", floor=3)
     with r:
         fi = idx.func(IG_CHECK)
         C = 'ItemGrader.check: wrong_msg'
         rets = lib.returns_of(fi.node)
-        if len(rets) != 1 or not isinstance(rets[0].value, ast.Name):
-            raise AnalysisError('ItemGrader.check: expected a single `return <name>`')
-        wname = rets[0].value.id
-        stores = []
-        for n in walk_own(fi.node):
-            if isinstance(n, ast.Assign) and any(lib.mentions_config(n.value, 'wrong_msg') for _ in [0]):
-                stores.append(n)
+        if not rets or not all(isinstance(x.value, ast.Name) for x in rets) or len({x.value.id for x in rets}) != 1:
+            raise AnalysisError('ItemGrader.check: the returns do not all hand back one name')
+        wnames = {rets[0].value.id} | set(getattr(info, 'winner_names', ()))
+        bests = set(getattr(info, 'best_names', ()))
+        stores = [n for n in walk_own(fi.node) if isinstance(n, ast.Assign) and lib.mentions_config(n.value, 'wrong_msg')]
         if not stores:
-            r.violation(C, "config['wrong_msg'] is never used: a wrong answer without specific feedback shows no message", fi.loc)
+            fl.absent(r, idx, C, "config['wrong_msg'] is never used: a wrong answer without specific feedback shows no message", fi.loc)
             return
         if len(stores) != 1:
             raise AnalysisError('ItemGrader.check: several uses of wrong_msg')
         st = stores[0]
         where = lib.loc(fi, st)
         tgt = st.targets[0]
-        if nf.match("%s['msg']" % wname, tgt) is not None and lib.is_config(st.value, 'wrong_msg'):
+        if isinstance(tgt, ast.Subscript) and fl.name_of(tgt.value) in wnames and lib.subscript_key(tgt) == 'msg' \
+                and lib.is_config(st.value, 'wrong_msg'):
             r.ok(C + ' store', "winner['msg'] = config['wrong_msg']", where)
-        elif isinstance(tgt, ast.Subscript) and lib.subscript_key(tgt) != 'msg' and fl.name_of(tgt.value) == wname:
+        elif isinstance(tgt, ast.Subscript) and lib.subscript_key(tgt) != 'msg' and fl.name_of(tgt.value) in wnames:
             r.violation(C + ' store', "wrong_msg is stored under key %r instead of 'msg'" % lib.subscript_key(tgt), where)
+        elif isinstance(tgt, ast.Subscript) and lib.subscript_key(tgt) == 'msg' and info.outer is not None and info.host is fi \
+                and any(x is info.outer for x in ancestors(st)):
+            r.violation(C + ' store', 'wrong_msg is written into the individual results inside the loop over the alternatives, before the '
+                        'best result is selected (`%s`): the replaced messages take part in the longest-message tie-break, so wrong_msg '
+                        'can displace a specific feedback message of another zero-credit alternative' % short(st), where,
+                        expected="winner['msg'] = config['wrong_msg'] after the selection")
+            return
         else:
             r.undecided(C + ' store', 'not recognised: %s' % short(st), where)
-        chain = fl.if_chain_containing(st, fi.node)
-        if not chain:
-            r.violation(C + ' condition', 'wrong_msg overwrites the message unconditionally: specific feedback and the messages of '
-                        'correct answers are replaced', where, expected="if msg == '' and best_score == 0")
+
+        def is_msg(e):
+            return isinstance(e, ast.Subscript) and fl.name_of(e.value) in wnames and lib.subscript_key(e) == 'msg'
+
+        def is_score(e):
+            return (isinstance(e, ast.Name) and e.id in bests) or \
+                (isinstance(e, ast.Subscript) and fl.name_of(e.value) in wnames and lib.subscript_key(e) == 'grade_decimal')
+        # the statements after the winner is known, as decision paths (nothing substituted: guards keep their names)
+        body = fi.node.body
+        wdef = [i for i, s_ in enumerate(body) if isinstance(s_, ast.Assign) and
+                any(isinstance(x, ast.Name) and isinstance(x.ctx, ast.Store) and x.id in wnames for t in s_.targets for x in ast.walk(t))]
+        if not wdef:
+            r.undecided(C + ' condition', 'the winner is not bound by a top-level statement of check', where)
             return
-        if len(chain) != 1 or chain[0][1] != 'body':
-            r.undecided(C + ' condition', 'guards not recognised', where)
+        tail = body[wdef[-1] + 1:]
+        if not any(any(n is st for n in ast.walk(s_)) for s_ in tail):
+            r.undecided(C + ' condition', 'the wrong_msg store does not follow the selection of the winner', where)
             return
-        test = chain[0][0].test
-        best = getattr(info, 'best_name', None)
-        score_terms = ["%s['grade_decimal'] == 0" % wname]
-        if best:
-            score_terms.insert(0, '%s == 0' % best)
-        msg_terms = ["%s['msg'] == ''" % wname, "not %s['msg']" % wname]
-        pats = ['%s and %s' % (m, s) for s in score_terms for m in msg_terms]
-        res = nf.classify(pats, test)
-        tw = lib.loc(fi, chain[0][0])
-        if res == nf.MATCH:
-            r.ok(C + ' condition', "msg == '' and best score == 0", tw)
-        elif isinstance(res, tuple):
-            r.violation(C + ' condition', res[1] + " -- wrong_msg must appear exactly when the best grade is zero and no specific "
-                        "message applies", tw, expected=pats[0], found=unparse(test))
+        names = fl.param_names(fi.node) + list({n.id for n in ast.walk(fi.node) if isinstance(n, ast.Name)})
+        paths = nf.decision_paths(tail, keep_locals=tuple(names))
+        guards = [g for p in paths for g in p.guards]
+        reps = _grade_classes(guards, is_score)
+        bad_ret = [p for p in paths if p.leaf.kind == 'fall' or (p.leaf.kind == 'ret' and fl.name_of(p.leaf.expr) not in wnames)]
+        mismatch = None
+        try:
+            for empty in (True, False):
+                for g in reps:
+                    taken = [p for p in paths if all(_truth(x, empty, g, is_msg, is_score) for x in p.guards)]
+                    if len(taken) != 1:
+                        raise _Unknown()
+                    p = taken[0]
+                    stored = any(isinstance(e, ast.Assign) and lib.mentions_config(e.value, 'wrong_msg') for e in p.effects)
+                    if stored != (empty and g == 0) and mismatch is None:
+                        mismatch = (empty, g, stored, p)
+        except _Unknown:
+            r.undecided(C + ' condition', 'a guard after the selection is neither a test of the winner\'s message nor of the best grade: %s'
+                        % '; '.join(sorted({short(g, 60) for g in guards})), where)
+            return
+        if mismatch is None:
+            r.ok(C + ' condition', "assigned exactly for (message empty, best grade 0) among the %d (message, grade order type) classes"
+                 % (2 * len(reps)), where)
         else:
-            verdict = _wrong_msg_by_conjunct(test, wname, best)
-            if verdict is True:
-                r.ok(C + ' condition', "msg == '' and best score is zero", tw)
-            elif verdict:
-                r.violation(C + ' condition', verdict, tw, expected=pats[0], found=unparse(test))
-            else:
-                r.undecided(C + ' condition', 'not recognised: %s' % short(test), tw)
-        # the replacement happens before the return and after the selection
-        r.check(lib.dominated(fi, [chain[0][0].test], [rets[0]]), C + ' order', 'decided before returning',
-                'a path returns without deciding about wrong_msg', tw)
-
-
-def _wrong_msg_by_conjunct(test, wname, best):
-    """True / violation text / None for a two-conjunct condition, judging the score conjunct on sample grades."""
-    cj = nf.conjuncts(nf.canon(test))
-    if len(cj) != 2:
-        return None
-    msg_ok = [c for c in cj if nf.match("%s['msg'] == ''" % wname, c) is not None or nf.match("not %s['msg']" % wname, c) is not None]
-    if len(msg_ok) != 1:
-        return None
-    sc = [c for c in cj if c is not msg_ok[0]][0]
-    if not (isinstance(sc, ast.Compare) and len(sc.ops) == 1):
-        return None
-    a, b, op = sc.left, sc.comparators[0], sc.ops[0]
-
-    def is_score(e):
-        return (best and isinstance(e, ast.Name) and e.id == best) or nf.match("%s['grade_decimal']" % wname, e) is not None
-    if is_score(a) and isinstance(nf.const_value(b, None), (int, float)):
-        c, score_left = nf.const_value(b), True
-    elif is_score(b) and isinstance(nf.const_value(a, None), (int, float)):
-        c, score_left = nf.const_value(a), False
-    else:
-        return None
-    import operator
-    ops = {ast.Eq: operator.eq, ast.NotEq: operator.ne, ast.Lt: operator.lt, ast.LtE: operator.le,
-           ast.Gt: operator.gt, ast.GtE: operator.ge}
-    if type(op) not in ops:
-        return None
-    truth = [g for g in (0, 0.25, 0.5, 0.75, 1) if (ops[type(op)](g, c) if score_left else ops[type(op)](c, g))]
-    if truth == [0]:
-        return True
-    return ('the score condition `%s` holds for best grades %s, not exactly for 0: wrong_msg %s'
-            % (unparse(sc), truth or 'none', 'also replaces the empty message of partially or fully correct answers'
-               if truth and truth != [0] else 'is never shown'))
+            empty, g, stored, p = mismatch
+            r.violation(C + ' condition', 'for (winner\'s message %s, best grade %s) wrong_msg %s (path guards: %s): it must appear '
+                        'exactly when the best grade is zero and no specific message applies'
+                        % ('empty' if empty else 'non-empty', g, 'replaces the message' if stored else 'is not shown',
+                           ' and '.join(unparse(x) for x in p.guards) or 'none'), where,
+                        expected="if msg == '' and best_score == 0: msg = wrong_msg")
+        if bad_ret:
+            p = bad_ret[0]
+            r.violation(C + ' order', 'a path after the selection %s' % ('falls off the end (returns None)' if p.leaf.kind == 'fall'
+                                                                         else 'returns `%s` instead of the winner' % short(p.leaf.expr)),
+                        lib.loc(fi, p.leaf.stmt) if p.leaf.stmt is not None else fi.loc)
+        else:
+            r.ok(C + ' order', 'every path after the selection returns the winner', where)
 
 
 # ----------------------------------------------------------------------------- D4
@@ -417,53 +658,65 @@ def d4_copy(ctx, idx, info):
                  floor=2)
     with r:
         fi = idx.func(IG_CHECK)
+        hfi = info.host or fi
         C = 'ItemGrader.check'
-        fx = FunctionEffects(fi, idx)
-        p_answers = fi.params[1]
-        tainted = {('param', p_answers), ('self', 'config'), ('self', "config['answers']"), ('selfobj',)}
+        call = info.call
+        if call is None:
+            raise AnalysisError('check_response call not identified (see D1)')
+        # stores in check and (if different) in the helper that hosts the loops
+        tainted_kinds = {('self', 'config'), ('self', "config['answers']"), ('selfobj',)}
         n_exp = 0
-        for m in fx.direct_mutations():
-            hit = m.origins & tainted
-            is_expect = "['expect']" in m.how
-            if is_expect:
-                n_exp += 1
-            if hit:
-                r.violation(C + ': ' + m.how, 'the statement writes into an object that is (part of) the configured/passed answers '
-                            '(%s): after the first submission the answer keeps only one entry of its expect tuple, so later '
-                            'submissions and other alternatives are graded against a modified configuration'
-                            % ', '.join(sorted('.'.join(map(str, h)) for h in hit)), lib.loc(fi, m.node),
-                            expected='answercopy = answer.copy() before the store')
-            elif is_expect:
-                r.ok(C + ': ' + m.how, 'target is a fresh copy', lib.loc(fi, m.node))
-        if n_exp == 0:
-            r.undecided(C + ": store to ['expect']", 'no narrowing store found', fi.loc)
-        # the copy is taken per answer, from the loop variable
-        call = lib.one_call(fi, 'check_response')
+        for f in ([fi] if hfi is fi else [fi, hfi]):
+            fx = FunctionEffects(f, idx)
+            tainted = set(tainted_kinds) | {('param', p) for p in f.params[1:2]} | \
+                ({('param', p) for p in f.params if p not in ('self',)} if f is not fi else set())
+            for m in fx.direct_mutations():
+                hit = m.origins & tainted
+                is_expect = "['expect']" in m.how
+                if is_expect:
+                    n_exp += 1
+                if hit and (is_expect or f is fi and ('param', fi.params[1]) in hit):
+                    r.violation(C + ': ' + m.how, 'the statement writes into an object that is (part of) the configured/passed answers '
+                                '(%s): after the first submission the answer keeps only one entry of its expect tuple, so later '
+                                'submissions and other alternatives are graded against a modified configuration'
+                                % ', '.join(sorted('.'.join(map(str, h)) for h in hit)), lib.loc(f, m.node),
+                                expected='answercopy = answer.copy() before the store')
+                elif is_expect:
+                    r.ok(C + ': ' + m.how, 'target is a fresh copy', lib.loc(f, m.node))
         a0 = call.args[0] if call.args else None
+        where = lib.loc(hfi, call)
+        if info.comp is not None:
+            av, ev_ = info.comp_vars
+            if a0 is not None and any(nf.match(p.replace('_A', av).replace('_E', ev_), a0) is not None for p in FRESH_NARROWED):
+                r.ok(C + ": store to ['expect']", 'a fresh dict with expect narrowed is built per (answer, entry)', where)
+                r.ok(C + ': answer copy', 'fresh per call', where)
+            else:
+                r.undecided(C + ': check_response argument', 'not a fresh narrowed copy: %s' % short(a0), where)
+            return
+        if n_exp == 0:
+            r.undecided(C + ": store to ['expect']", 'no narrowing store found', hfi.loc)
         if info.outer is None or not isinstance(a0, ast.Name):
-            r.undecided(C + ': check_response argument', 'not recognised', lib.loc(fi, call))
+            r.undecided(C + ': check_response argument', 'not recognised', where)
             return
         av = info.outer.target.id if isinstance(info.outer.target, ast.Name) else None
-        defs = lib.assigned_value(fi.node, a0.id)
+        defs = lib.assigned_value(hfi.node, a0.id)
         if a0.id == av:
-            # the loop variable itself is passed: acceptable only if nothing stores into it (checked above)
-            r.ok(C + ': check_response argument', 'the answer itself (never written)', lib.loc(fi, call))
+            r.ok(C + ': check_response argument', 'the answer itself (never written)', where)
             return
         if len(defs) != 1:
-            r.undecided(C + ': check_response argument', '%s is bound %d times' % (a0.id, len(defs)), lib.loc(fi, call))
+            r.undecided(C + ': check_response argument', '%s is bound %d times' % (a0.id, len(defs)), where)
             return
         d = defs[0]
         copies = ['%s.copy()' % av, 'dict(%s)' % av, 'copy.copy(%s)' % av, 'copy.deepcopy(%s)' % av, 'deepcopy(%s)' % av,
                   'copy(%s)' % av]
         if any(nf.match(p, d) is not None for p in copies):
-            inside = fl.enclosing_loop(d, fi.node)
+            inside = fl.enclosing_loop(d, hfi.node)
             r.check(inside is not None and any(inside is x for x in (info.outer, info.inner)), C + ': answer copy',
-                    'copied once per answer inside the loop', 'the copy is not taken inside the loop over the answers', lib.loc(fi, d))
+                    'copied once per answer inside the loop', 'the copy is not taken inside the loop over the answers', lib.loc(hfi, d))
         elif isinstance(d, ast.Name) and d.id == av:
-            # alias: already reported above if anything is stored through it
-            r.ok(C + ': answer copy', 'alias of the answer (stores reported separately)', lib.loc(fi, d), nontrivial=False)
+            r.ok(C + ': answer copy', 'alias of the answer (stores reported separately)', lib.loc(hfi, d), nontrivial=False)
         else:
-            r.undecided(C + ': answer copy', 'not recognised: %s' % short(d), lib.loc(fi, d))
+            r.undecided(C + ': answer copy', 'not recognised: %s' % short(d), lib.loc(hfi, d))
 
 
 # ------------------------------------------------------------------------ self-test
@@ -508,6 +761,8 @@ MUTANTS = [
     Mutant('wrong-msg-when-message-present', BASE, "        if best_result_with_longest_msg['msg'] == \"\" and best_score == 0:",
            "        if best_result_with_longest_msg['msg'] != \"\" and best_score == 0:", 'D3'),
     Mutant('wrong-msg-never', BASE, "            best_result_with_longest_msg['msg'] = self.config[\"wrong_msg\"]\n", "            pass\n", 'D3'),
+    Mutant('seeded-wrong-msg-before-selection', BASE, _LOOP + "\n        # Now find the best result for the student\n        best_score = max([r['grade_decimal'] for r in results])\n        best_results = [r for r in results if r['grade_decimal'] == best_score]\n        best_result_with_longest_msg = max(best_results, key=lambda r: len(r['msg']))\n\n        # Add in wrong_msg if appropriate\n        if best_result_with_longest_msg['msg'] == \"\" and best_score == 0:\n            best_result_with_longest_msg['msg'] = self.config[\"wrong_msg\"]\n",
+           "                result = self.check_response(answercopy, student_input, **kwargs)\n                if result['msg'] == \"\" and result['grade_decimal'] == 0:\n                    result['msg'] = self.config[\"wrong_msg\"]\n                results.append(result)\n\n        best_score = max([r['grade_decimal'] for r in results])\n        best_results = [r for r in results if r['grade_decimal'] == best_score]\n        best_result_with_longest_msg = max(best_results, key=lambda r: len(r['msg']))\n", 'D3'),
     Mutant('copy-dropped', BASE, "            answercopy = answer.copy()\n", "            answercopy = answer\n", 'D4'),
     Mutant('narrow-in-place', BASE, "                answercopy['expect'] = entry\n" + _LOOP,
            "                answer['expect'] = entry\n                result = self.check_response(answer, student_input, **kwargs)\n                results.append(result)\n", 'D4'),
@@ -523,5 +778,9 @@ BENIGN = [
            "        if 0 == best_score and not best_result_with_longest_msg['msg']:"),
     Benign('filter-flipped', BASE, "        best_results = [r for r in results if r['grade_decimal'] == best_score]",
            "        best_results = [res for res in results if best_score == res['grade_decimal']]"),
+    Benign('selection-helper-extracted', BASE, "        best_score = max([r['grade_decimal'] for r in results])\n        best_results = [r for r in results if r['grade_decimal'] == best_score]\n        best_result_with_longest_msg = max(best_results, key=lambda r: len(r['msg']))\n\n        # Add in wrong_msg if appropriate\n        if best_result_with_longest_msg['msg'] == \"\" and best_score == 0:\n            best_result_with_longest_msg['msg'] = self.config[\"wrong_msg\"]\n\n        return best_result_with_longest_msg\n",
+           "        best_score, best = self._pick_best_result(results)\n        if best['msg'] == \"\" and best_score == 0:\n            best['msg'] = self.config[\"wrong_msg\"]\n        return best\n\n    @staticmethod\n    def _pick_best_result(results):\n        def msg_length(result):\n            return len(result['msg'])\n        top = max(result['grade_decimal'] for result in results)\n        tied = [result for result in results if result['grade_decimal'] == top]\n        return top, max(tied, key=msg_length)\n"),
+    Benign('loop-helper-extracted', BASE, "        results = []\n        for answer in answers:\n            # Iterate through each entry in the expect tuple\n            answercopy = answer.copy()\n            for entry in answer['expect']:\n                answercopy['expect'] = entry\n" + _LOOP,
+           "        def check_all(alternatives):\n            collected = []\n            for answer in alternatives:\n                single = answer.copy()\n                for entry in answer['expect']:\n                    single['expect'] = entry\n                    collected.append(self.check_response(single, student_input, **kwargs))\n            return collected\n        results = check_all(answers)\n"),
     Benign('log-in-loop', BASE, _LOOP, _LOOP + "                self.log('checked one alternative')\n"),
 ]
